@@ -241,7 +241,7 @@ func c10Prepare(t fataler, root string, initial, target string, oldSpec *specs.S
 // domains do (foo.yaml.example.org-gpu.yaml).
 func c10Target(t *rapid.T, enc string) string {
 	stem := rapid.SampledFrom([]string{"target", "target", "target", "acme.jsonnet-gen", "vendor.yaml.d-gpu", "foo.yaml.example.org-gpu",
-		"a.json", "x.yaml", "spec.1.tmp", ".json.hidden", "t.tmp"}).Draw(t, "targetStem")
+		"a.json", "x.yaml", "spec.1.tmp", ".json.hidden", "t.tmp", "pod*ctr0", "*", "a*b*c", "x?[y]"}).Draw(t, "targetStem")
 	return stem + enc
 }
 
